@@ -1,6 +1,7 @@
 #!/bin/bash
-# tools/seedin.sh <id>: copy a finished second-round seeded change from its scratch worktree into /verif/seeded/<id>-2
-id=$1; src=/tmp/seed2-$id/seed_out; dst=/verif/seeded/$id-2
+# tools/seedin.sh <id> [round]: copy a finished seeded change of round 2 or 3 from its scratch worktree
+# (/tmp/seed<round>-<id>/seed_out) into /verif/seeded/<id>-<round>
+id=$1; rnd=${2:-2}; src=/tmp/seed$rnd-$id/seed_out; dst=/verif/seeded/$id-$rnd
 mkdir -p $dst && cp $src/patch.diff $src/meta.json $dst/ && { cp $src/demo.diff $dst/ 2>/dev/null || cp $src/demo.* $src/README* $dst/ 2>/dev/null; }
 git -C /repo apply --check $dst/patch.diff && echo "patch applies to /repo HEAD"
 ls $dst
